@@ -8,4 +8,5 @@ INVARIANT ReleaseIff
 INVARIANT ReturnValue
 INVARIANT Prompt
 INVARIANT Led
+CONSTRAINT NoTermBound
 CHECK_DEADLOCK FALSE
